@@ -251,9 +251,7 @@ pub fn rand_meta(rng: &mut Rng, level: u8) -> Meta {
         let v = match k {
             "weight" => rng.range(0, 500).to_string(),
             "doc" => format!("'{}'", rng.pick(&["x y", "hello", "a-b"])),
-            // fence of a listed finding: the word `false` is never written (the grammar language's
-            // BoolConst regex /true|false/ is only anchored for `true`; see known_findings.json)
-            _ => "true".to_string(),
+            _ => rng.pick(&["true", "false"]).to_string(),
         };
         m.user.push((k.to_string(), v));
     }
